@@ -143,6 +143,12 @@ class Assume:
                     mth = self.eval(b.value.args[1], env)
                     if isinstance(y, Int) and isinstance(mth, Int):
                         env.facts = env.facts | {('validdate', y.iid, mth.iid, aval.iid)}
+        if isinstance(lv, Int) and isinstance(rv, Int) and isinstance(op, (ast.Eq, ast.NotEq)):
+            cov = []
+            for x in (lv, rv):
+                cov.extend(x.alldeps())
+            if cov:
+                env.facts = env.facts | {('cov', 'compare', 'int') + tuple(cov)}
         d = self.compare(op, lv, rv, env, node)
         if d is not None:
             return [env] if d == truth else []
@@ -346,6 +352,17 @@ class Assume:
 
     def assume_str_eq(self, a, b, eq, env):
         S = self.ctx.S
+        cov = [c for c in list(a.cells()) + list(b.cells()) if not isinstance(c, frozenset)]
+        if cov:
+            env.facts = env.facts | {('cov', 'compare', '') + tuple(cov)}
+            gen = set()
+            for f in env.facts:
+                if isinstance(f, tuple) and f and f[0] == 'gen':
+                    gen.update(f[1:])
+            ca = [c for c in a.cells() if not isinstance(c, frozenset)]
+            cb = [c for c in b.cells() if not isinstance(c, frozenset)]
+            if ca and cb and all(c in gen for c in ca) and all(c in gen for c in cb):
+                env.facts = env.facts | {('vacuous', self.ctx.stack[-1][0] if self.ctx.stack else '?', self.ctx.stack[-1][1] if self.ctx.stack else '?')}
         if eq:
             lo = max(a.lo or 0, b.lo or 0)
             hi = a.hi if b.hi is None else (b.hi if a.hi is None else min(a.hi, b.hi))
@@ -387,6 +404,9 @@ class Assume:
         S = self.ctx.S
         if not isinstance(item, Str):
             return [env]
+        cov = [c for c in item.cells() if not isinstance(c, frozenset)]
+        if cov and isinstance(coll, (Str, Tup)):
+            env.facts = env.facts | {('cov', 'compare', 'in') + tuple(cov)}
         if isinstance(coll, RegDict):
             k = S.const_value(env, item)
             if k is not None:
